@@ -2,7 +2,7 @@
    Statements + `exact` only. *)
 From Coq Require Import Reals List Bool Arith ZArith.
 From Coquelicot Require Import Complex.
-From QV Require Import Sem Mat2 Toff2 Chain Vchain RelPhase McxModel McxPlaced LinearMcx GenLib Majority Gen_majority MajorityGen.
+From QV Require Import Sem Mat2 Toff2 Chain Vchain RelPhase McxModel McxPlaced LinearMcx McxMulti Cvoqram GenLib Majority Gen_majority MajorityGen.
 Import ListNotations.
 Open Scope nat_scope.
 
@@ -14,6 +14,13 @@ Theorem C05_vchain_exact : forall j psi b,
   = psi (if all_controls j b then flipq (j + 3 + (j + 1)) b else b).
 Proof. exact vchain_general_exact. Qed.
 Print Assumptions C05_vchain_exact.
+
+(* several targets (k = j + 3 controls, nt >= 1 targets): ALL targets flip iff all controls are 1; borrowed qubits untouched *)
+Theorem C05_vchain_multi_target : forall j nt, (1 <= nt)%nat -> forall psi b,
+  srun (general j nt false false) psi b
+  = psi (if all_controls j b then Cvoqram.flips (targets j nt) b else b).
+Proof. exact vchain_multi_exact. Qed.
+Print Assumptions C05_vchain_multi_target.
 
 (* relative-phase mode: the same permutation times a diagonal with entries +1/-1 *)
 Theorem C05_vchain_relphase : forall j psi b,
